@@ -392,7 +392,19 @@ let model (line : string) : string =
         List.iter (fun ((r, d), w) ->
             if d && iz r <> iz w then
               match List.assoc_opt (iz r) c.fcacts with
-              | Some acts -> m := { !m with m_root = run_acts cfg acts !m.m_root }
+              | Some acts ->
+                m := { !m with m_root = run_acts cfg acts !m.m_root };
+                (* glue, not model: window.c's _focus_gained assigns win->focused_child = child AFTER the handler has
+                   run (unless the child is no longer a child of win), so a handler that HIDES the child while it is told
+                   IN about it finds no link to clear and the hidden child ends up on the focus chain; the model links
+                   first and applies the handler's calls afterwards, so the link is put back here (seeded C14-11) *)
+                if List.exists (function RHide x -> iz x = iz w | _ -> false) acts then begin
+                  let tr = !m.m_root.r_tree in
+                  match t_parent_id w tr with
+                  | Some p when iz p = iz r ->
+                    m := { !m with m_root = set_tree !m.m_root (t_update (fun j -> set_fchild j (Some w)) r tr) }
+                  | _ -> ()
+                end
               | None -> ()) fevs;
         (match List.assoc_opt (iz id) c.facts with
          | Some acts when List.exists (fun ((r, d), w) -> d && iz r = iz id && iz w = iz id) fevs ->
